@@ -48,14 +48,20 @@ def main(argv):
         status, results, failed, msg = replay(doc)
     except Exception as e:  # the real code raised something the harness does not catch
         import traceback
-        out = dict(status="exception", exception="%s: %s" % (type(e).__name__, e),
-                   traceback=traceback.format_exc(limit=6))
+        repo = os.environ.get("PYVC_REPO", "/repo")
+        tb = traceback.extract_tb(e.__traceback__)
+        in_repo = bool(tb) and tb[-1].filename.startswith(repo + "/")
+        through_repo = any(f.filename.startswith(repo + "/") for f in tb)
+        out = dict(status="raised-in-repo" if through_repo else "harness-exception",
+                   exception="%s: %s" % (type(e).__name__, e), traceback=traceback.format_exc(limit=-8),
+                   failed=[doc.get("obligation", "?")] if through_repo else [])
         if "--json" in argv:
             print(json.dumps(out))
         else:
-            print("replay: the harness terminated with", out["exception"])
+            print("replay: terminated with", out["exception"], "(raised through repository code)" if through_repo
+                  else "(harness problem, not a verdict)")
             print(out["traceback"])
-        return 3
+        return 1 if through_repo else 3
     out = dict(status=status, message=msg,
                clauses=[dict(name=n, holds=ok, detail=d) for n, ok, d in results],
                failed=[n for n, _ in failed])
